@@ -60,3 +60,10 @@ func (nd *KVNode) VerifScanColl(conn redcon.Conn, cmd redcon.Command) {
 	}
 	h(conn, cmd)
 }
+
+// VerifScanLexRange is the argument parser of ZRANGEBYLEX / ZLEXCOUNT / ZREMRANGEBYLEX
+// ("[a", "(a", "-", "+"), so that the harness calls the read-side store functions with
+// exactly what the node handlers would pass.
+func VerifScanLexRange(left, right []byte) ([]byte, []byte, uint8, error) {
+	return getLexRange(left, right)
+}
